@@ -550,9 +550,36 @@ impl PeekByte for Variant {
                 let bytes = i32_to_bytes(*i);
                 Ok(bytes[address])
             }
-            _ => todo!(),
+            Self::VLong(l) => byte_at(&(*l as i32).to_le_bytes(), address),
+            Self::VSingle(f) => byte_at(&f.to_le_bytes(), address),
+            Self::VDouble(d) => byte_at(&d.to_le_bytes(), address),
+            // one byte per character, see QByteSize
+            Self::VString(s) => s
+                .chars()
+                .nth(address)
+                .map(|ch| ch as u32 as u8)
+                .ok_or(RuntimeError::SubscriptOutOfRange),
+            Self::VArray(v_arr) => v_arr.peek_byte(address),
+            Self::VUserDefined(user_defined_type_value) => {
+                let mut offset: usize = 0;
+                for value in user_defined_type_value.values() {
+                    let len = value.byte_size();
+                    if address < offset + len {
+                        return value.peek_byte(address - offset);
+                    }
+                    offset += len;
+                }
+                Err(RuntimeError::SubscriptOutOfRange)
+            }
         }
     }
+}
+
+fn byte_at(bytes: &[u8], address: usize) -> Result<u8, RuntimeError> {
+    bytes
+        .get(address)
+        .copied()
+        .ok_or(RuntimeError::SubscriptOutOfRange)
 }
 
 impl PeekByte for VArray {
@@ -581,7 +608,72 @@ impl PokeByte for Variant {
                 *i = bytes_to_i32(bytes);
                 Ok(())
             }
-            _ => todo!(),
+            Self::VLong(l) => {
+                let mut bytes = (*l as i32).to_le_bytes();
+                *bytes
+                    .get_mut(address)
+                    .ok_or(RuntimeError::SubscriptOutOfRange)? = value;
+                *l = i32::from_le_bytes(bytes) as i64;
+                Ok(())
+            }
+            Self::VSingle(f) => {
+                let mut bytes = f.to_le_bytes();
+                *bytes
+                    .get_mut(address)
+                    .ok_or(RuntimeError::SubscriptOutOfRange)? = value;
+                let poked = f32::from_le_bytes(bytes);
+                if poked.is_finite() {
+                    *f = poked;
+                    Ok(())
+                } else {
+                    // the bytes of an infinity or NaN are not a value a SINGLE can hold
+                    Err(RuntimeError::Overflow)
+                }
+            }
+            Self::VDouble(d) => {
+                let mut bytes = d.to_le_bytes();
+                *bytes
+                    .get_mut(address)
+                    .ok_or(RuntimeError::SubscriptOutOfRange)? = value;
+                let poked = f64::from_le_bytes(bytes);
+                if poked.is_finite() {
+                    *d = poked;
+                    Ok(())
+                } else {
+                    Err(RuntimeError::Overflow)
+                }
+            }
+            Self::VString(s) => {
+                // one byte per character, see QByteSize
+                if address >= s.chars().count() {
+                    return Err(RuntimeError::SubscriptOutOfRange);
+                }
+                *s = s
+                    .chars()
+                    .enumerate()
+                    .map(|(i, ch)| if i == address { value as char } else { ch })
+                    .collect();
+                Ok(())
+            }
+            Self::VArray(v_arr) => v_arr.poke_byte(address, value),
+            Self::VUserDefined(user_defined_type_value) => {
+                let mut offset: usize = 0;
+                let sizes: Vec<(CaseInsensitiveString, usize)> = user_defined_type_value
+                    .names()
+                    .cloned()
+                    .zip(user_defined_type_value.values().map(Variant::byte_size))
+                    .collect();
+                for (name, len) in sizes {
+                    if address < offset + len {
+                        return user_defined_type_value
+                            .get_mut(&name)
+                            .ok_or(RuntimeError::SubscriptOutOfRange)?
+                            .poke_byte(address - offset, value);
+                    }
+                    offset += len;
+                }
+                Err(RuntimeError::SubscriptOutOfRange)
+            }
         }
     }
 }
